@@ -255,6 +255,9 @@ def gotran_to_myokit(ode: ODE, time_component="engine", time_unit="s") -> myokit
     global_var_map = {
         sp.Symbol("time"): sp.Symbol(f"{time_component}.time"),
         ode.t: sp.Symbol(f"{time_component}.time"),
+        # Myokit's sympy reader knows numbers but not sympy's symbolic constants
+        sp.pi: sp.Float(sp.pi),
+        sp.E: sp.Float(sp.E),
     }
     for component in ode.components:
         if component.name == time_component:
